@@ -167,7 +167,9 @@ class C05(Prop):
                 'Continuum.c05_o2m_frame', 'Continuum.c05_m2m', 'Continuum.c05_m2m_frame', 'Continuum.c05_m2m_idem_eq',
                 'Continuum.c05_m2o', 'Continuum.c05_m2o_frame', 'Continuum.c05_target_nested', 'Continuum.c05_delete_target_nested',
                 'Continuum.revertN_keeps_visited', 'Continuum.c05_every_level', 'Continuum.revertNL_erase',
-                'Continuum.revertNL_log_nodup', 'Continuum.revertNL_target_logged', 'Continuum.history_all']
+                'Continuum.revertNL_log_nodup', 'Continuum.revertNL_target_logged', 'Continuum.c05_target_full',
+                'Continuum.c05_delete_target_full', 'Continuum.revertF_visited_rows', 'Continuum.revertF_visited_mono',
+                'Continuum.revertF_no_paths', 'Continuum.revertF_links_frame', 'Continuum.history_all']
     workers = 14
     chunk = 1
     rule = ('random histories on the Article 1-n Tag shape (optionally with an excluded column) and the many-to-many shape, both '
@@ -177,7 +179,7 @@ class C05(Prop):
             'before and after, the related set being computed by the Lean relationship model from the version tables; excluded '
             'columns must be unchanged; non-trivial = the target is not the newest version of a live entity (something is '
             'actually restored); distinct = (history, target, relationships)')
-    assumptions = ['nested / cyclic relation paths are not enumerated (first-level relationships only)',
+    assumptions = ['dotted paths: one cyclic two-level path per class and shape (not every path of every depth)',
                    'that the revert transaction is itself versioned correctly is C01/C02/C11 (history_all)']
     needs_tags = ['target_delete_version', 'entity_deleted_now', 'rel:o2m', 'rel:m2m', 'rel:m2o', 'middle_version', 'excluded_col',
                   'repeated_revert', 'dotted_path', 'dotted_second_level_entity']
